@@ -492,8 +492,15 @@ fn run(line: &str) -> String {
 
 fn main() {
     std::panic::set_hook(Box::new(|_| {}));
+    // 1 GiB by default so that the correspondence never dies of the harness's own recursion;
+    // VHARNESS_STACK_KB lets a check run the library on a realistic stack (Rust's default for a
+    // spawned thread is 2 MiB) so that unbounded recursion shows up as a crash
+    let stack = std::env::var("VHARNESS_STACK_KB")
+        .ok()
+        .and_then(|v| v.parse::<usize>().ok())
+        .map_or(1 << 30, |kb| kb * 1024);
     let child = std::thread::Builder::new()
-        .stack_size(1 << 30)
+        .stack_size(stack)
         .spawn(|| {
             let stdin = std::io::stdin();
             let stdout = std::io::stdout();
